@@ -9,10 +9,10 @@ open PV Scalar
 variable {α : Type} [Scalar α]
 
 /-- the C04 invariant: `Obs.WF` plus "a chain held as a range has at least two configurations"
-    (the constructor never produces shorter ones) and a central value that is a number -/
+    (the constructor never produces shorter ones).  A NaN central value (function applied outside
+    its domain) is a floating-point number and does not violate the structural invariant. -/
 def wfC04 (o : Obs α) : Bool :=
   o.WF && o.reps.all (fun r => match r.idl with | .range _ n _ => decide (2 ≤ n) | .list _ => true)
-    && !(Scalar.isNaN o.value)
 
 /-- first violated clause, for replay files -/
 def wfDiag (o : Obs α) : String :=
@@ -27,7 +27,6 @@ def wfDiag (o : Obs α) : String :=
   | some r => "range / list normal form violated on " ++ r.name
   | none => if !(strictSortedStr o.covNames) then "covariance names not sorted / unique"
   else if !(o.covNames.all (fun n => !(n.contains '|') && !(o.names.contains n))) then "covariance name clashes"
-  else if Scalar.isNaN o.value then "value is NaN"
   else "ok"
 
 end PV.Spec
